@@ -19,6 +19,7 @@ import (
 	"runtime"
 	"strings"
 	"sync"
+	"sync/atomic"
 	"time"
 
 	"cell2verif/hx"
@@ -249,8 +250,130 @@ func genTCP(x *hx.T, i int) string {
 	return fmt.Sprintf("reset-tcp pk=%s tail=%s", strings.Join(ps, ","), tcpTails[R.Intn(len(tcpTails))])
 }
 
+// ---------------------------------------------------------------- accept burst
+//
+//	reset-burst n=N
+//
+// the real pomelo.StartAcceptor in front of a fake acceptor.Acceptor whose
+// connection channel already holds N stub connections (a connect burst).  Every
+// connection must be served by exactly one session: one OnSessionCreate per
+// connection, exactly one reader in its GetNextMessage; then every client
+// disconnects: one OnSessionClose and one conn.Close per connection.
+// Observation: n=N,served1=<connections with exactly one reader>,adds=..,removes=..,closes=<connections closed exactly once>
+
+type burstConn struct {
+	mu      sync.Mutex
+	readers int
+	closes  int
+	gone    chan struct{} // the client went away
+	closed  chan struct{}
+}
+
+func (c *burstConn) GetNextMessage() ([]byte, error) {
+	c.mu.Lock()
+	c.readers++
+	c.mu.Unlock()
+	select {
+	case <-c.gone:
+		return nil, io.EOF
+	case <-c.closed:
+		return nil, io.ErrClosedPipe
+	}
+}
+func (c *burstConn) Read(b []byte) (int, error)  { return 0, io.EOF }
+func (c *burstConn) Write(b []byte) (int, error) { return len(b), nil }
+func (c *burstConn) Close() error {
+	c.mu.Lock()
+	c.closes++
+	if c.closes == 1 {
+		close(c.closed)
+	}
+	c.mu.Unlock()
+	return nil
+}
+func (c *burstConn) LocalAddr() net.Addr                { return &net.TCPAddr{} }
+func (c *burstConn) RemoteAddr() net.Addr               { return &net.TCPAddr{} }
+func (c *burstConn) SetDeadline(t time.Time) error      { return nil }
+func (c *burstConn) SetReadDeadline(t time.Time) error  { return nil }
+func (c *burstConn) SetWriteDeadline(t time.Time) error { return nil }
+
+type burstAcceptor struct{ ch chan acceptor.PlayerConn }
+
+func (a *burstAcceptor) ListenAndServe()                       {}
+func (a *burstAcceptor) Stop()                                 {}
+func (a *burstAcceptor) GetAddr() string                       { return "burst" }
+func (a *burstAcceptor) GetConnChan() chan acceptor.PlayerConn { return a.ch }
+
+type burstImpl struct{ adds, removes int32 }
+
+func (i *burstImpl) ProcessMessage(pi.IClientSession, *message.Message) {}
+func (i *burstImpl) OnSessionCreate(pi.IClientSession)                  { atomic.AddInt32(&i.adds, 1) }
+func (i *burstImpl) OnSessionClose(pi.IClientSession)                   { atomic.AddInt32(&i.removes, 1) }
+
+func execBurst(op string) string {
+	ws := hx.Words(op)
+	n := hx.KVInt(ws, "n")
+	if n <= 0 || n > 512 {
+		return "bad-op"
+	}
+	// one P, as in production under load: the accept loop keeps running while sessions are being set up
+	defer runtime.GOMAXPROCS(runtime.GOMAXPROCS(1))
+	impl := &burstImpl{}
+	cfg := session.NewSessionConfig(nil)
+	cfg.Impl = impl
+	a := &burstAcceptor{ch: make(chan acceptor.PlayerConn, n)}
+	conns := make([]*burstConn, n)
+	for i := range conns {
+		conns[i] = &burstConn{gone: make(chan struct{}), closed: make(chan struct{})}
+		a.ch <- conns[i]
+	}
+	pomelo.StartAcceptor(a, cfg)
+	close(a.ch)
+	wait := func(done func() bool) {
+		for i := 0; i < 1500 && !done(); i++ {
+			time.Sleep(2 * time.Millisecond)
+		}
+	}
+	readers := func() (total int) {
+		for _, c := range conns {
+			c.mu.Lock()
+			total += c.readers
+			c.mu.Unlock()
+		}
+		return
+	}
+	wait(func() bool { return int(atomic.LoadInt32(&impl.adds)) >= n && readers() >= n })
+	time.Sleep(20 * time.Millisecond) // a surplus session would show up now
+	served1 := 0
+	for _, c := range conns {
+		c.mu.Lock()
+		if c.readers == 1 {
+			served1++
+		}
+		c.mu.Unlock()
+	}
+	adds := int(atomic.LoadInt32(&impl.adds))
+	for _, c := range conns {
+		close(c.gone)
+	}
+	wait(func() bool { return int(atomic.LoadInt32(&impl.removes)) >= adds })
+	time.Sleep(20 * time.Millisecond)
+	closed1 := 0
+	for _, c := range conns {
+		c.mu.Lock()
+		if c.closes == 1 {
+			closed1++
+		}
+		c.mu.Unlock()
+	}
+	return fmt.Sprintf("n=%d,served1=%d,adds=%d,removes=%d,closes=%d", n, served1, adds, atomic.LoadInt32(&impl.removes), closed1)
+}
+
 func isTCPReplay(ops []string) bool {
 	for _, op := range ops {
+		if strings.HasPrefix(op, "reset-burst") {
+			return true
+		}
 		if strings.HasPrefix(op, "reset-tcp") {
 			return true
 		}
@@ -259,6 +382,27 @@ func isTCPReplay(ops []string) bool {
 }
 
 func runTCP(x *hx.T, ops []string) {
+	burst := func(op string) {
+		x.Emit(op, hx.Guard(func() string { return execBurst(op) }))
+		x.Count("burst")
+	}
+	if ops == nil {
+		// accept bursts first
+		for _, n := range []int{1, 2, 64, 8 + x.R.Intn(100)} {
+			burst(fmt.Sprintf("reset-burst n=%d", n))
+		}
+	} else {
+		tcp := false
+		for _, op := range ops {
+			if strings.HasPrefix(op, "reset-burst") {
+				burst(op)
+			}
+			tcp = tcp || strings.HasPrefix(op, "reset-tcp")
+		}
+		if !tcp {
+			return
+		}
+	}
 	e := newTCPEnv()
 	run := func(op string) {
 		obs := hx.Guard(func() string { return e.exec(op) })
